@@ -474,11 +474,20 @@ def namespace_reader(repo, chk):
                     dec[nm] = v
                 elif cn._not(tt) == atom:
                     dec[nm] = not v
+        a_len3 = expected_term(m, 'len(P) == 3', {'P': P})
+        for t, v in res.assumed:
+            tt = term_of(fn, t, roles, inline=False)
+            if tt == a_len3:
+                dec['len3'] = v
+            elif cn._not(tt) == a_len3:
+                dec['len3'] = not v
         two = None
-        if dec.get('len') is False or dec.get('us') is False:
-            two = False
-        elif dec.get('len') is True:
+        if dec.get('len3') is True:
+            two = False                      # exactly three fields: id, feature, type
+        elif dec.get('len') is True and dec.get('us') is not False:
             two = True
+        elif 'len3' not in dec and (dec.get('len') is False or dec.get('us') is False):
+            two = False                      # not a two-field line: unpacked as three fields (anything else raises and is skipped)
         # the declared type on this path
         type_terms = []
         for t, v in res.assumed:
@@ -489,7 +498,10 @@ def namespace_reader(repo, chk):
         added = [c for c in adds if (not float_name or c['call'].func.value.id == float_name)]
         if two is None:
             if any(any(x == ('call', ('name', 'len'), (P,), ()) for x in walk_term(term_of(fn, t, roles, inline=False))) for t, v in res.assumed):
-                problems.setdefault('C16.6f', (lp, 'the test that separates two-field from three-field namespace lines changed: lines are unpacked with the wrong arity, raise inside the try and are silently dropped from the id->feature map'))
+                if 'len3' in dec:
+                    chk.unsure('C16.6f', 'R14', fn.site(lp), ', '.join(f'{ast.unparse(t)[:40]} is {v}' for t, v in res.assumed), 'a path that stores into the id->feature map under field-count tests that are not classified as two-field / three-field')
+                else:
+                    problems.setdefault('C16.6f', (lp, 'the test that separates two-field from three-field namespace lines changed: lines are unpacked with the wrong arity, raise inside the try and are silently dropped from the id->feature map'))
             continue
         if two:
             # fixed, non-float type: never added to the float set
